@@ -474,10 +474,10 @@ def step (st : DState) (line : String) : DState × String :=
   | ["ssobs"] =>
     -- observed through the PUBLIC functions only: get_all per class (as a sorted list) and
     -- check_semi_singleton_entry_exists per (class, argument tuple)
-    let alls := (List.range 6).map fun c => match (st.ss.step ssCfg (.getAll c)).2 with
+    let alls := (List.range 7).map fun c => match (st.ss.step ssCfg (.getAll c)).2 with
       | .insts l => s!"{c}:" ++ "+".intercalate ((l.mergeSort (· ≤ ·)).map toString)
       | _ => s!"{c}:?"
-    let chks := (List.range 6).flatMap fun c => (List.range 15).filterMap fun a =>
+    let chks := (List.range 7).flatMap fun c => (List.range 15).filterMap fun a =>
       match (st.ss.step ssCfg (.check c a)).2 with
       | .inst i => some s!"{c}/{a}:{i}"
       | _ => none
